@@ -470,7 +470,7 @@ theorem resize_worker_count_eq (cur : Option Pool) (same_args : Bool) (n : Nat)
       by_cases hn : n = p.maxWorkers
       · subst hn
         simp only [if_true, submitEnsure, PoolWF]
-        refine ⟨by omega, rfl, by omega, by simp⟩
+        refine ⟨by omega, trivial, by omega, by simp⟩
       · rw [if_neg hn]
         cases hs : p.started with
         | false =>
@@ -478,7 +478,7 @@ theorem resize_worker_count_eq (cur : Option Pool) (same_args : Bool) (n : Nat)
           simp [submitEnsure, PoolWF, this]
         | true =>
           simp only [Bool.not_true, Bool.false_eq_true, if_false, submitEnsure, PoolWF]
-          refine ⟨by omega, rfl, by omega, by simp⟩
+          refine ⟨by omega, trivial, by omega, by simp⟩
 
 /-- …along a whole sequence of calls (each may or may not find the executor reusable). -/
 theorem sequence_worker_count_eq (calls : List (Bool × Nat)) (cur : Option Pool)
